@@ -281,6 +281,13 @@ def build(ctx, consts, info):
             sampler=lambda rng: se3_case(rng), tol=1e-9, **K)
     g.model('m_trinterp1', [('B', 'M44'), ('s', 'S')], 'O:M44', coq='m_trinterp1', num_fn=lambda Bm, s: mat_or_raise(base.trinterp(None, Bm, s)),
             sampler=lambda rng: se3_case(rng, from_identity=True)[1:], tol=1e-9, **K)
+    so3_of = lambda c: [c[0][:3, :3], c[1][:3, :3], c[2]]
+    g.model('m_trinterp_so3', [('A', 'M33'), ('B', 'M33'), ('s', 'S')], 'O:M33', coq='m_trinterp_so3', num_fn=lambda A, Bm, s: mat_or_raise(base.trinterp(A, Bm, s)),
+            sampler=lambda rng: so3_of(se3_case(rng)), tol=1e-9, **K)
+    g.model('m_trinterp_so3_1', [('B', 'M33'), ('s', 'S')], 'O:M33', coq='m_trinterp_so3_1', num_fn=lambda Bm, s: mat_or_raise(base.trinterp(None, Bm, s)),
+            sampler=lambda rng: so3_of(se3_case(rng, from_identity=True))[1:], tol=1e-9, **K)
+    g.model('m_code_44_33', [('A', 'M44'), ('B', 'M33'), ('s', 'S')], 'S', coq='m_code_44_33', num_fn=lambda A, Bm, s: code_of(lambda: base.trinterp(A, Bm, s)),
+            sampler=lambda rng: [se3_case(rng)[0], rand_rot(rng, rng.uniform(0.1, 3.0)), float(rng.choice([0.0, 1.0, 0.5, -0.25, 1.25]))], **K)
     # outcome codes of the shape dispatch
     sany = lambda rng: float(rng.choice([0.0, 1.0, 0.5, -0.25, 1.25, rng.uniform(0, 1)]))
     r3 = lambda rng: rand_rot(rng, rng.uniform(0.1, 3.0))
@@ -296,9 +303,9 @@ def build(ctx, consts, info):
     g.model('m_code_33_44', [('A', 'M33'), ('B', 'M44'), ('s', 'S')], 'S', coq='m_code_33_44', num_fn=lambda A, Bm, s: code_of(lambda: base.trinterp(A, Bm, s)),
             sampler=lambda rng: [r3(rng), t4(rng), sany(rng)], **K)
     g.model('m_code_22', [('B', 'M22'), ('s', 'S')], 'S', coq='m_code_22', num_fn=lambda Bm, s: code_of(lambda: base.trinterp(None, Bm, s)),
-            sampler=lambda rng: [np.eye(2), s01(rng)], **K)
+            sampler=lambda rng: [np.eye(2), sany(rng)], **K)
     g.model('m_code_other', [('s', 'S')], 'S', coq='m_code_other', num_fn=lambda s: code_of(lambda: base.trinterp(None, np.eye(5), s)),
-            sampler=lambda rng: [s01(rng)], **K)
+            sampler=lambda rng: [sany(rng)], **K)
     return g
 
 
@@ -354,7 +361,10 @@ Definition m_uq_short_code (p q : V4 T) (s : T) := res_code O (uq_interp O kU kV
 Definition m_uq1_long (q : V4 T) (s : T) := optres (uq_interp O kU kV (qone O) q s false).
 Definition m_uq1_short (q : V4 T) (s : T) := optres (uq_interp O kU kV (qone O) q s true).
 Definition dyn (start : option (mat (T:=T))) (e : mat (T:=T)) (s : T) := trinterp_dyn O kS kR trinterp_shortest start e s.
-Definition m44_of (r : res (ret (T:=T))) : option (M44 T) := match r with Ok (RetMat (Mat44 m)) => Some m | _ => None end.
+Definition m44_of (r : res (mat (T:=T))) : option (M44 T) := match r with Ok (Mat44 m) => Some m | _ => None end.
+Definition m33_of (r : res (mat (T:=T))) : option (M33 T) := match r with Ok (Mat33 m) => Some m | _ => None end.
+Definition m_trinterp_so3 (A B : M33 T) (s : T) := m33_of (dyn (Some (Mat33 A)) (Mat33 B) s).
+Definition m_trinterp_so3_1 (B : M33 T) (s : T) := m33_of (dyn None (Mat33 B) s).
 Definition m_trinterp (A B : M44 T) (s : T) := m44_of (dyn (Some (Mat44 A)) (Mat44 B) s).
 Definition m_trinterp1 (B : M44 T) (s : T) := m44_of (dyn None (Mat44 B) s).
 Definition m_code_33 (B : M33 T) (s : T) := outcome_code O (dyn None (Mat33 B) s).
@@ -362,6 +372,7 @@ Definition m_code_33_33 (A B : M33 T) (s : T) := outcome_code O (dyn (Some (Mat3
 Definition m_code_44 (B : M44 T) (s : T) := outcome_code O (dyn None (Mat44 B) s).
 Definition m_code_44_44 (A B : M44 T) (s : T) := outcome_code O (dyn (Some (Mat44 A)) (Mat44 B) s).
 Definition m_code_33_44 (A : M33 T) (B : M44 T) (s : T) := outcome_code O (dyn (Some (Mat33 A)) (Mat44 B) s).
+Definition m_code_44_33 (A : M44 T) (B : M33 T) (s : T) := outcome_code O (dyn (Some (Mat44 A)) (Mat33 B) s).
 Definition m_code_22 (B : M22 T) (s : T) := outcome_code O (dyn None (Mat22 B) s).
 Definition m_code_other (s : T) := outcome_code O (dyn None MatOther s).
 (* ---- the range check of trinterp as executed (concolic runs at s inside / below / above / at the ends of [0,1]) *)
@@ -630,6 +641,25 @@ def oracle(ctx):
             return
         ctx.fail(f"oracle:out-of-range:{key}:accepted", f"{key} accepts s outside [0,1] and returns {type(r).__name__}", replay)
 
+    def pose_interp(cls, thunk, ref_ok, long_arc, rps, d):
+        """a pose-class interp call.  The class re-validates the matrix trinterp computed with its constructor (100 eps); on a long arc
+        near antipodal the (1e-6-correct) result fails that test: keyed by that root cause, only when trinterp itself was right"""
+        try:
+            X = thunk()
+        except Exception as ex:  # noqa
+            kind = type(ex).__name__
+            if kind == 'ValueError' and 'invalid value' in str(ex) and long_arc and ref_ok:
+                ctx.fail('oracle:pose.interp:long-arc:constructor-rejects-result',
+                         f"{cls}.interp raises ValueError ({ex}): base.trinterp's result is right to 1e-6 but its orthogonality defect exceeds the "
+                         f"constructor's 100 eps; q0.q1 = {d:g}", dict(rps, site=cls))
+            else:
+                ctx.fail(f"oracle:{cls}.interp:{'long-arc' if long_arc else 'short-arc'}:raises-{kind}", f"{cls}.interp raises {kind}: {ex}; q0.q1 = {d:g}", rps)
+            return None
+        if any(x is None for x in X.data):
+            ctx.fail(f"oracle:{cls}.interp:holds-None", f"{cls}.interp returns an object holding None", rps)
+            return None
+        return X
+
     # ------------------------------------------------------------------ 3-D
     N = ctx.n(250, 6000)
     excluded = 0
@@ -724,15 +754,38 @@ def oracle(ctx):
             if s == 1.0 and not np.max(np.abs(M - T1)) <= 1e-6 * scale_t:
                 ctx.fail('oracle:endpoint:trinterp:s1', f"trinterp at s=1 is not the end: {np.max(np.abs(M - T1)):g}", rps)
             # agreement: pose class, slerp on the library's quaternions, UnitQuaternion.interp
-            X = call('SE3.interp', lambda: (SE3(T1, check=False).interp(s, start=SE3(T0, check=False)) if with_start else SE3(T1, check=False).interp(s)), rps)
+            rot_ok = errs[arc] <= 1e-6
+            X = pose_interp('SE3', lambda: (SE3(T1, check=False).interp(s, start=SE3(T0, check=False)) if with_start else SE3(T1, check=False).interp(s)),
+                            rot_ok, d < 0, rps, d)
             if X is not None:
                 ctx.count('oracle:agree:SE3.interp')
-                if isinstance(X, SE3) and len(X) == 1 and X.A is None:
-                    ctx.fail(f"oracle:SE3.interp:{'long-arc' if float(qa @ q1c) < 0 else 'short-arc'}:holds-None",
-                             f"SE3.interp returns an SE3 whose value is None (trinterp's result, orthogonality defect "
-                             f"{np.max(np.abs(M[:3,:3] @ M[:3,:3].T - np.eye(3))):.2g}, is dropped by the constructor's validity check); q0.q1 = {float(qa @ q1c):g}", rps)
-                elif not (isinstance(X, SE3) and len(X) == 1 and np.max(np.abs(X.A - M)) <= 1e-6 * scale_t):
+                if not (isinstance(X, SE3) and len(X) == 1 and np.max(np.abs(X.A - M)) <= 1e-6 * scale_t):
                     ctx.fail('oracle:agree:SE3.interp', "SE3.interp differs from base.trinterp", rps)
+            # SO(3): the matrix function on 3x3 arguments and the pose class
+            ctx.count('oracle:so3')
+            Rs = call('base.trinterp(SO3)', lambda: base.trinterp(R0 if with_start else None, R1, s), rps)
+            if Rs is not None:
+                if not (isinstance(Rs, np.ndarray) and Rs.shape == (3, 3)):
+                    ctx.fail('oracle:so3:trinterp:not-a-3x3-matrix', f"trinterp on SO(3) arguments returns {type(Rs).__name__}", rps)
+                else:
+                    if not valid_so3(Rs, tol):
+                        ctx.fail('oracle:validity:trinterp(SO3)', f"trinterp(SO3) result is not in SO(3) to {tol:g}", rps)
+                    e3 = float(min(np.max(np.abs(Rs - q2r_ref(ref_slerp(sg * qa, q1c, s)))) for sg in (1, -1)))
+                    worst('rotation-so3', e3)
+                    if not e3 <= 1e-6:
+                        ctx.fail('oracle:rotation:trinterp(SO3)', f"SO(3) R(s) is not R0 exp(s log(R0' R1)) on either arc: error {e3:g}", rps)
+                    if not np.max(np.abs(Rs - M[:3, :3])) <= 1e-9:
+                        ctx.fail('oracle:agree:trinterp(SO3)/trinterp(SE3)', f"the SO(3) case differs from the rotation of the SE(3) case by {np.max(np.abs(Rs - M[:3, :3])):g}", rps)
+                    if s == 0.0 and not np.max(np.abs(Rs - A0[:3, :3])) <= 1e-6:
+                        ctx.fail('oracle:endpoint:trinterp(SO3):s0', "trinterp(SO3) at s=0 is not the start", rps)
+                    if s == 1.0 and not np.max(np.abs(Rs - R1)) <= 1e-6:
+                        ctx.fail('oracle:endpoint:trinterp(SO3):s1', "trinterp(SO3) at s=1 is not the end", rps)
+                    Y = pose_interp('SO3', lambda: (SO3(R1, check=False).interp(s, start=SO3(R0, check=False)) if with_start else SO3(R1, check=False).interp(s)),
+                                    e3 <= 1e-6, d < 0, rps, d)
+                    if Y is not None:
+                        ctx.count('oracle:agree:SO3.interp')
+                        if not (isinstance(Y, SO3) and len(Y) == 1 and np.max(np.abs(Y.A - Rs)) <= 1e-6):
+                            ctx.fail('oracle:agree:SO3.interp', "SO3.interp differs from base.trinterp on the 3x3 matrices", rps)
             lq0 = base.r2q(R0) if with_start else np.array([1.0, 0, 0, 0])
             lq1 = base.r2q(R1)
             qsl = call('base.slerp', lambda: base.slerp(lq0, lq1, s), rps)
@@ -761,20 +814,18 @@ def oracle(ctx):
             ctx.fail('oracle:rotation:trinterp:arc-changes-with-s', "the arc taken is not the same for every s of one pair", rp)
         # vector s gives the sequence
         sv = np.array(ss)
-        Xv = call('SE3.interp(vector)', lambda: (SE3(T1, check=False).interp(sv, start=SE3(T0, check=False)) if with_start else SE3(T1, check=False).interp(sv)), rp)
-        if Xv is not None:
-            ctx.count('oracle:vector-s:SE3.interp')
-            ok = isinstance(Xv, SE3) and len(Xv) == len(sv)
-            if ok and any(x is None for x in Xv.data):
-                ctx.fail(f"oracle:SE3.interp:{'long-arc' if float(qa @ q1c) < 0 else 'short-arc'}:holds-None",
-                         f"SE3.interp(vector s) returns an SE3 holding None values; q0.q1 = {float(qa @ q1c):g}", dict(rp, s=[float(x) for x in sv]))
-            else:
+        for cls, C, E0, E1 in (('SE3', SE3, T0, T1), ('SO3', SO3, R0, R1)):
+            Xv = pose_interp(cls, lambda: (C(E1, check=False).interp(sv, start=C(E0, check=False)) if with_start else C(E1, check=False).interp(sv)),
+                             True, d < 0, dict(rp, s=[float(x) for x in sv]), d)
+            if Xv is not None:
+                ctx.count('oracle:vector-s:' + cls + '.interp')
+                ok = isinstance(Xv, C) and len(Xv) == len(sv)
                 if ok:
                     for k_, s in enumerate(sv):
-                        Mk = base.trinterp(T0 if with_start else None, T1, float(s))
+                        Mk = base.trinterp(E0 if with_start else None, E1, float(s))
                         ok = ok and np.max(np.abs(Xv[k_].A - Mk)) <= 1e-9 * scale_t
                 if not ok:
-                    ctx.fail('oracle:vector-s:SE3.interp', "SE3.interp(vector s) is not the sequence of the scalar results", rp)
+                    ctx.fail(f'oracle:vector-s:{cls}.interp', f"{cls}.interp(vector s) is not the sequence of the scalar results", rp)
         if it % 10 == 0:
             lq1 = base.r2q(R1)
             try:
@@ -794,21 +845,9 @@ def oracle(ctx):
             must_raise('SE3.interp', lambda: SE3(T1, check=False).interp(so, start=SE3(T0, check=False)), ro)
             must_raise('UnitQuaternion.interp', lambda: UnitQuaternion(lq1).interp(so), ro)
             must_raise('UnitQuaternion.interp(dest)', lambda: UnitQuaternion(base.r2q(R0)).interp(so, dest=UnitQuaternion(lq1)), ro)
-            # SO(3): matrix function and pose class
-            s = float(rng.uniform(0, 1))
-            rs = dict(rp, s=s.hex())
-            for key, thunk in (('base.trinterp(SO3)', lambda: base.trinterp(R0, R1, s)), ('base.trinterp(SO3,start=None)', lambda: base.trinterp(None, R1, s)),
-                               ('SO3.interp', lambda: SO3(R1, check=False).interp(s).A), ('SO3.interp(start)', lambda: SO3(R1, check=False).interp(s, start=SO3(R0, check=False)).A)):
-                ctx.count('oracle:so3:' + key)
-                try:
-                    Rs = thunk()
-                except Exception as ex:  # noqa
-                    ctx.fail(f"oracle:so3-case:raises-{type(ex).__name__}", f"{key} raises {type(ex).__name__}: {ex} (every SO(3) interpolation does)", dict(rs, site=key))
-                    continue
-                start_q = q0c if ('start)' in key and 'None' not in key) or key == 'base.trinterp(SO3)' else np.array([1.0, 0, 0, 0])
-                e = min(np.max(np.abs(Rs - q2r_ref(ref_slerp(sg * start_q, q1c, s)))) for sg in (1, -1)) if isinstance(Rs, np.ndarray) and Rs.shape == (3, 3) else float('inf')
-                if not e <= 1e-6:
-                    ctx.fail('oracle:rotation:' + key, f"SO(3) interpolation is wrong by {e:g}", rs)
+            must_raise('base.trinterp(SO3)', lambda: base.trinterp(R0, R1, so), ro)
+            must_raise('base.trinterp(SO3,start=None)', lambda: base.trinterp(None, R1, so), ro)
+            must_raise('SO3.interp', lambda: SO3(R1, check=False).interp(so, start=SO3(R0, check=False)), ro)
     W['excluded-antipodal'] = excluded
 
     # ------------------------------------------------------------------ quaternion level (shortest on / off, long arcs)
@@ -919,14 +958,18 @@ def oracle(ctx):
                 ctx.fail('oracle:vector-s:SE2.interp', "SE2.interp(vector s) is not the sequence of the scalar results", rp)
 
     # ------------------------------------------------------------------ arguments that are not poses
-    for key, thunk in (('base.trinterp', lambda: base.trinterp(None, np.eye(5), 0.5)), ('base.trinterp2', lambda: base.trinterp2(None, np.eye(5), 0.5))):
-        ctx.case(('bad-shape', key))
+    R3, T4 = rot_from_axis_angle([0, 0, 1.0], 0.3), np.eye(4)
+    for key, arg, thunk in (('base.trinterp', 'eye(5)', lambda: base.trinterp(None, np.eye(5), 0.5)), ('base.trinterp', 'eye(2)', lambda: base.trinterp(None, np.eye(2), 0.5)),
+                            ('base.trinterp', '3x3 start, 4x4 end', lambda: base.trinterp(R3, T4, 0.5)), ('base.trinterp', '4x4 start, 3x3 end', lambda: base.trinterp(T4, R3, 0.5)),
+                            ('base.trinterp2', 'eye(5)', lambda: base.trinterp2(None, np.eye(5), 0.5)), ('base.trinterp2', 'eye(4)', lambda: base.trinterp2(None, np.eye(4), 0.5))):
+        ctx.case(('bad-shape', key, arg))
+        ctx.count('oracle:bad-shape')
         try:
             r = thunk()
             if isinstance(r, BaseException):
-                ctx.fail(f"oracle:bad-shape:{key}:returns-exception-object", f"{key}(None, eye(5), 0.5) returns the exception object {r!r} instead of raising it", {'end': 'eye(5)', 's': 0.5})
+                ctx.fail(f"oracle:bad-shape:{key}:exception-not-raised", f"{key} with {arg} returns the exception object {r!r} instead of raising it", {'arg': arg, 's': 0.5})
             else:
-                ctx.fail(f"oracle:bad-shape:{key}:accepted", f"{key} accepts a 5x5 matrix", {'end': 'eye(5)', 's': 0.5})
+                ctx.fail(f"oracle:bad-shape:{key}:accepted", f"{key} accepts {arg}", {'arg': arg, 's': 0.5})
         except Exception:  # noqa
             pass
     if 'out-of-range-kinds' in W:
